@@ -275,7 +275,9 @@ EXTRA = {
            "args.debump/args.opt on.",
     "C05": "Also: the C(i-1)/N(i+1) frame pointers survive update_bonds only across a bond within the limit on every path (free tests "
            "explored both ways), the limit separates bonded from 1-3 template distances; completing an XH3 group reads the position of "
-           "every hydrogen already present. Coincidence through path-dependent local state (seed C05-d) is not decided.",
+           "every hydrogen already present. Water.finalize is decided by " + MODEL + " on eight model waters (every combination of H1/LP1/LP2 "
+           "present) under twelve scripted neighbourhoods, with positions as abstract points: both hydrogens are built and no two atoms "
+           "of the water share a point on any path.",
     "C06": "Also: pKa and pH reach the comparison unmodified; rows of different titratable groups never share a key of the pKa table; "
            "patch isolation.",
     "C07": "Also: every ATOM/HETATM record read is appended to a residue; the record type is decided by the record-name columns; the "
